@@ -248,7 +248,7 @@ func c02Run(r *mon.Run) {
 			case 0:
 				u = float64(rng.Intn(2*max+5)-2) / 2
 			case 1: // near centre
-				u = float64(max + rng.Range(-12, 12)) / 2
+				u = float64(max+rng.Range(-12, 12)) / 2
 			case 2: // tails
 				if rng.Bool() {
 					u = float64(rng.Intn(max/4+2)) / 2
